@@ -368,7 +368,7 @@ func init() {
 	})
 
 	register(&Rule{
-		ID: "window.expired-filtered", Props: []string{"C08", "C09"}, Floor: 3,
+		ID: "window.expired-filtered", Props: []string{"C08", "C09", "C02"}, Floor: 3,
 		Doc: "every function that collects buckets from the circular array appends a bucket only after isBucketDeprecated(now, bucket) returned false; SlidingWindowMetric's getters obtain buckets only through ValuesConditional with the [start,end] predicate of the current window",
 		Run: func(c *Ctx) {
 			get := c.P.Func(sbPkg + ".(*AtomicBucketWrapArray).get")
@@ -497,6 +497,14 @@ func init() {
 			if !okPred {
 				c.Violate(fnKey(gsb)+" / window-predicate-shape", gsb.Pos(), "getSatisfiedBuckets no longer selects buckets by the [start,end] range of the current window")
 			}
+			// ... and nothing else is ever returned: no alternative path hands out buckets chosen differently
+			for i, r := range returnsOf(gsb) {
+				for _, cs := range splitPhiCases(r.Results[0], r.Block(), nil, 0) {
+					call, isCall := resolve(cs.val).(*ssa.Call)
+					ok := isCall && isStaticCallTo(call, vc)
+					c.Check(ok, fmt.Sprintf("%s / return#%d", fnKey(gsb), i+1), r.Pos(), "returns the buckets selected by the window predicate (got %s)", accessPath(cs.val))
+				}
+			}
 		},
 	})
 
@@ -586,4 +594,69 @@ func splitPhiCases(v ssa.Value, blk *ssa.BasicBlock, extra []Fact, depth int) []
 		out = append(out, splitPhiCases(e, pred, edgeFact(pred, phi.Block()), depth+1)...)
 	}
 	return out
+}
+
+func init() {
+	register(&Rule{
+		ID: "window.readers-refresh-current", Props: []string{"C08"}, Floor: 4,
+		Doc: "isBucketDeprecated is the strict test now-start > interval, so a bucket exactly one interval old still counts as live; it sits in the slot that `now` maps to. Every BucketLeapArray reader that collects all live buckets (valuesWithTime / Values of the underlying LeapArray) therefore first refreshes that slot (currentBucketOfTime / CurrentBucket on the same array), which resets the stale bucket. (If the deprecation test becomes >=, the refresh is not required and the rule holds trivially.)",
+		Run: func(c *Ctx) {
+			dep := c.P.Func(sbPkg + ".(*LeapArray).isBucketDeprecated")
+			vwt := c.P.Func(sbPkg + ".(*LeapArray).valuesWithTime")
+			vals := c.P.Func(sbPkg + ".(*LeapArray).Values")
+			cbt := c.P.Func(sbPkg + ".(*LeapArray).currentBucketOfTime")
+			cb := c.P.Func(sbPkg + ".(*LeapArray).CurrentBucket")
+			bla := c.P.Named(sbPkg + ".BucketLeapArray")
+			if dep == nil || vwt == nil || vals == nil || cbt == nil || cb == nil || bla == nil {
+				c.AnchorLost("LeapArray.isBucketDeprecated / valuesWithTime / Values / currentBucketOfTime / CurrentBucket")
+				return
+			}
+			strict := false
+			eachInstr(dep, func(ins ssa.Instruction) {
+				if b, ok := ins.(*ssa.BinOp); ok && (b.Op == token.GTR || b.Op == token.LSS) {
+					strict = true
+				}
+			})
+			n := 0
+			for _, f := range c.P.FuncsIn(modPath + "/" + sbPkg) {
+				recv := f.Signature.Recv()
+				if recv == nil || namedOf(recv.Type()) != bla || isTestOrExample(f) {
+					continue
+				}
+				for _, ci := range callsIn(f) {
+					if !isStaticCallTo(ci, vwt) && !isStaticCallTo(ci, vals) {
+						continue
+					}
+					n++
+					key := fmt.Sprintf("%s / collect#%d", fnKey(f), n)
+					if !strict {
+						c.Hold(key, ci.Pos(), "deprecation test is not strict: a bucket one interval old is already filtered")
+						continue
+					}
+					arr := accessPath(ci.Common().Args[0])
+					ok := mustBeforeInstr(ci.(ssa.Instruction), func(x ssa.Instruction) bool {
+						c2, isCall := x.(ssa.CallInstruction)
+						if !isCall {
+							return false
+						}
+						if _, isDefer := x.(*ssa.Defer); isDefer {
+							return false
+						}
+						return (isStaticCallTo(c2, cbt) || isStaticCallTo(c2, cb)) && accessPath(c2.Common().Args[0]) == arr
+					}, nil)
+					c.Check(ok, key, ci.Pos(), "all live buckets of %s are collected after the slot of `now` was refreshed", arr)
+				}
+			}
+			for _, ci := range append(c.P.StaticCallers(vwt), c.P.StaticCallers(vals)...) {
+				f := ci.Parent()
+				if recv := f.Signature.Recv(); recv != nil && (namedOf(recv.Type()) == bla || fnPkgPath(f) == modPath+"/"+sbPkg) {
+					continue
+				}
+				if isTestOrExample(f) {
+					continue
+				}
+				c.Info(fnKey(f)+" / collects-all-live-buckets", ci.Pos(), "outside core/stat/base: review that the caller refreshes the current slot first")
+			}
+		},
+	})
 }
